@@ -85,7 +85,16 @@ int main(int argc, char** argv)
     else if (!strcmp(c, "r")) {
       printf("R %d %d\n", rank, load(atoi(tok[2])));
       fflush(stdout);
-    } else if (!strcmp(c, "barrier"))
+    } else if (!strcmp(c, "ws"))
+      sb[atoi(tok[2])] = atoi(tok[3]);
+    else if (!strcmp(c, "rs") || !strcmp(c, "rr")) {
+      printf("R %d %d\n", rank, c[1] == 's' ? sb[atoi(tok[2])] : rb[atoi(tok[2])]);
+      fflush(stdout);
+    } else if (!strcmp(c, "gsend"))
+      MPI_Send(tok[3][0] == 'g' ? g_arr : sb, 4, MPI_INT, atoi(tok[2]), 6, MPI_COMM_WORLD);
+    else if (!strcmp(c, "grecv"))
+      MPI_Recv(tok[3][1] == 'g' ? s_zarr : rb, 4, MPI_INT, atoi(tok[2]), 6, MPI_COMM_WORLD, MPI_STATUS_IGNORE);
+    else if (!strcmp(c, "barrier"))
       MPI_Barrier(MPI_COMM_WORLD);
     else if (!strcmp(c, "bcast"))
       MPI_Bcast(sb, 4, MPI_INT, atoi(tok[2]), MPI_COMM_WORLD);
